@@ -388,8 +388,71 @@ FitWorkers(c, t) ==
 Earliest(c, t) == IF c.tasks[t].rel > c.now THEN c.tasks[t].rel ELSE c.now
 MinRt(c, t) == MinOf({c.tasks[t].strats[k].rt : k \in 1..Len(c.tasks[t].strats)})
 
+\* --- histories: the record of a call on a policy object that has been invoked before (optional field
+\* hist = [call |-> number of this invocation on the object, seen |-> per task: in how many earlier invocations of
+\* the object the task was offered]).  A stateful policy (Clockwork keeps request queues) is judged by the same
+\* clauses on every invocation; the classes below tell which invocations met a request that has been WAITING since
+\* an earlier invocation at one of the instants the policy compares against (deadline - runtime of a strategy,
+\* release, deadline).
+CallNo(c) == IF Has(c, "hist") THEN c.hist.call ELSE 1
+Seen(c, t) == IF Has(c, "hist") /\ t \in 1..Len(c.hist.seen) THEN c.hist.seen[t] ELSE 0
+Timed(c) == {t \in Offered(c) : Known(c, t) /\ St(c, t) = RELEASED /\ Len(c.tasks[t].strats) > 0}
+WaitingReqs(c) == {t \in Timed(c) : Seen(c, t) > 0}
+FirstSeen(c) == {t \in Timed(c) : Seen(c, t) = 0}
+\* slack of task t at this invocation under its k-th strategy: 0 = it can just be finished in time
+SlackOn(c, t, k) == c.tasks[t].dl - c.now - c.tasks[t].strats[k].rt
+SlackIs(c, S, d) == \E t \in S : \E k \in 1..Len(c.tasks[t].strats) : SlackOn(c, t, k) = d
+FastestSlack(c, t) == c.tasks[t].dl - c.now - MinRt(c, t)
+PlacedNow(c, t) == \E i \in DecsOf(c, t) : c.decs[i].kind = PLACE /\ c.decs[i].placed
+CancelledNow(c, t) == \E i \in DecsOf(c, t) : c.decs[i].kind = CANCEL
+HistoryClasses == {"later_invocation", "waiting_request", "waiting_placed", "waiting_cancelled", "waiting_unanswered",
+                   "first_seen_zero_slack", "first_seen_slack_minus1", "first_seen_slack_plus1",
+                   "waiting_zero_slack", "waiting_slack_minus1", "waiting_slack_plus1",
+                   "waiting_zero_slack_fastest", "waiting_zero_slack_slower_strategy",
+                   "waiting_zero_slack_fastest_placed", "waiting_zero_slack_fastest_cancelled",
+                   "waiting_zero_slack_fastest_unanswered", "waiting_slack_minus1_fastest_cancelled",
+                   "waiting_slack_plus1_fastest_placed", "offered_at_release", "offered_at_deadline",
+                   "waiting_at_deadline", "waiting_past_deadline", "waiting_beside_busy_worker",
+                   "waiting_for_profile", "cancel_and_place_same_task"}
+HistoryClass(x, c) ==
+    CASE x = "later_invocation" -> CallNo(c) > 1
+      [] x = "waiting_request"  -> WaitingReqs(c) # {}
+      [] x = "waiting_placed"   -> \E t \in WaitingReqs(c) : PlacedNow(c, t)
+      [] x = "waiting_cancelled" -> \E t \in WaitingReqs(c) : CancelledNow(c, t)
+      [] x = "waiting_unanswered" -> \E t \in WaitingReqs(c) : DecsOf(c, t) = {}
+      [] x = "first_seen_zero_slack"   -> SlackIs(c, FirstSeen(c), 0)
+      [] x = "first_seen_slack_minus1" -> SlackIs(c, FirstSeen(c), -1)
+      [] x = "first_seen_slack_plus1"  -> SlackIs(c, FirstSeen(c), 1)
+      [] x = "waiting_zero_slack"   -> SlackIs(c, WaitingReqs(c), 0)
+      [] x = "waiting_slack_minus1" -> SlackIs(c, WaitingReqs(c), -1)
+      [] x = "waiting_slack_plus1"  -> SlackIs(c, WaitingReqs(c), 1)
+      [] x = "waiting_zero_slack_fastest" -> \E t \in WaitingReqs(c) : FastestSlack(c, t) = 0
+      [] x = "waiting_zero_slack_slower_strategy" ->
+            \E t \in WaitingReqs(c) : \E k \in 1..Len(c.tasks[t].strats) :
+                SlackOn(c, t, k) = 0 /\ c.tasks[t].strats[k].rt > MinRt(c, t)
+      [] x = "waiting_zero_slack_fastest_placed" -> \E t \in WaitingReqs(c) : FastestSlack(c, t) = 0 /\ PlacedNow(c, t)
+      [] x = "waiting_zero_slack_fastest_cancelled" -> \E t \in WaitingReqs(c) : FastestSlack(c, t) = 0 /\ CancelledNow(c, t)
+      [] x = "waiting_zero_slack_fastest_unanswered" -> \E t \in WaitingReqs(c) : FastestSlack(c, t) = 0 /\ DecsOf(c, t) = {}
+      [] x = "waiting_slack_minus1_fastest_cancelled" -> \E t \in WaitingReqs(c) : FastestSlack(c, t) = -1 /\ CancelledNow(c, t)
+      [] x = "waiting_slack_plus1_fastest_placed" -> \E t \in WaitingReqs(c) : FastestSlack(c, t) = 1 /\ PlacedNow(c, t)
+      [] x = "offered_at_release"  -> \E t \in Timed(c) : c.tasks[t].rel = c.now
+      [] x = "offered_at_deadline" -> \E t \in Timed(c) : c.tasks[t].dl = c.now
+      [] x = "waiting_at_deadline" -> \E t \in WaitingReqs(c) : c.tasks[t].dl = c.now
+      [] x = "waiting_past_deadline" -> \E t \in WaitingReqs(c) : c.tasks[t].dl < c.now
+      \* why it waits: every worker that could hold one of its strategies when empty is occupied / its model is
+      \* held by no worker yet (loading or absent)
+      [] x = "waiting_beside_busy_worker" ->
+            \E t \in WaitingReqs(c) : FitWorkers(c, t) # {} /\ \A pw \in FitWorkers(c, t) : c.cluster[pw[1]][pw[2]].occ # <<>>
+      [] x = "waiting_for_profile" ->
+            \E t \in WaitingReqs(c) : TaskProf(c, t) # 0 /\
+                \A p \in PoolIds(c) : \A w \in WorkerIds(c, p) :
+                    ~\E j \in 1..Len(ProfsOf(c, p, w)) : ProfsOf(c, p, w)[j].pr = TaskProf(c, t) /\ ~ProfsOf(c, p, w)[j].pend
+      \* (the violation of clause 1 this family is after: a CANCEL and a PLACE for one task in one answer)
+      [] x = "cancel_and_place_same_task" -> \E t \in TaskIds(c) : PlacedNow(c, t) /\ CancelledNow(c, t)
+History(c) == {x \in HistoryClasses : HistoryClass(x, c)}
+
 \* which parts of the contract a record puts to work (vacuity counters of the harness)
-Exercised(c) ==
+Exercised(c) == History(c) \cup (
     LET I == Items(c)
         T == TaskIds(c)
     IN  {x \in {"decided", "placed", "unplaced", "cancel", "profile_decision", "offered_virtual", "offered_scheduled",
@@ -468,7 +531,7 @@ Exercised(c) ==
             \* a new placement shares a worker with a running task that has passed its deadline, later on
             [] x = "placed_beside_overrun" ->
                   \E it \in I : it.new /\ it.wk # 0 /\ \E ot \in I : ot.key[1] = 1 /\ ot.pool = it.pool /\ ot.wk = it.wk
-                                                             /\ ot.t \in T /\ c.tasks[ot.t].dl < c.now}
+                                                             /\ ot.t \in T /\ c.tasks[ot.t].dl < c.now})
 
 \* one line per failing (record, clause) and one line per record; always TRUE
 Judge(c) ==
@@ -525,6 +588,11 @@ GoodIlp == SanityCall("ilp", Conv(1, "starts", 1), <<Place(3, 1, 1, Sd(2, 4), 14
 GoodEdf == SanityCall("edf", Conv(0, "now", 0), <<Place(4, 1, 0, Sd(1, 2), 10), Unplaced(3)>>)
 \* half-open slots: 4 may start on worker 2 exactly when... it ends at 12 where the plan of task 2 starts
 GoodSlots == SanityCall("ts_cplex", Conv(0, "starts", 0), <<Place(4, 1, 2, Sd(1, 2), 10), Cancel(3)>>)
+
+\* the third invocation of a Clockwork object: task 3 has been offered twice before and is still RELEASED
+GoodWaiting == [SanityCall("clockwork", [Conv(0, "now", 0) EXCEPT !.plans = "ignored"],
+                           <<Place(3, 1, 2, Sd(1, 6), 10), Place(4, 1, 1, Sd(1, 2), 10)>>)
+                   EXCEPT !.tasks[3].dl = 16] @@ [hist |-> [call |-> 3, seen |-> <<1, 1, 2, 0, 0>>]]
 
 FailsExactly(c, cls) == Failing(c) = cls
 SanityOK ==
@@ -628,4 +696,19 @@ SanityOK ==
     /\ Offenders("conv.start_lb", [GoodIlp EXCEPT !.decs[1].tm = 10]) = {3}
     /\ Offenders("conv.grid", [GoodSlots EXCEPT !.conv.grid = 4]) = {}
     /\ Offenders("conv.grid", [GoodSlots EXCEPT !.conv.grid = 4, !.decs[1].tm = 11]) = {4}
+    \* histories: a stateful policy answers a request that has been waiting since an earlier invocation - a CANCEL and
+    \* a PLACE for it in one answer are two decisions (whatever the instant); each of them alone is one
+    /\ FailsExactly([GoodWaiting EXCEPT !.decs = <<Cancel(3), Place(3, 1, 2, Sd(1, 6), 10), Place(4, 1, 1, Sd(1, 2), 10)>>], {"C10.one_per_task"})
+    /\ Circ("C10.one_per_task", [GoodWaiting EXCEPT !.decs = <<Cancel(3), Place(3, 1, 2, Sd(1, 6), 10), Place(4, 1, 1, Sd(1, 2), 10)>>])
+          = {"distinct_answers"}
+    /\ ValidDecision(GoodWaiting)
+    /\ ValidDecision([GoodWaiting EXCEPT !.decs = <<Cancel(3), Place(4, 1, 1, Sd(1, 2), 10)>>])
+    \*     task 3 (deadline 16 = now + 6: zero slack on its 1-gpu strategy, slack 2 on the fastest) was offered twice before
+    /\ History(GoodWaiting) = {"later_invocation", "waiting_request", "waiting_placed", "waiting_zero_slack",
+                               "waiting_zero_slack_slower_strategy", "offered_at_release"}
+    /\ History([GoodWaiting EXCEPT !.tasks[3].dl = 14, !.decs = <<Cancel(3), Place(3, 1, 2, Sd(1, 6), 10), Place(4, 1, 1, Sd(1, 2), 10)>>])
+          = {"later_invocation", "waiting_request", "waiting_placed", "waiting_cancelled", "waiting_zero_slack",
+             "waiting_zero_slack_fastest", "waiting_zero_slack_fastest_placed", "waiting_zero_slack_fastest_cancelled",
+             "offered_at_release", "cancel_and_place_same_task"}
+    /\ History(GoodEdf) = {"offered_at_release"}
 =============================================================================
